@@ -97,7 +97,23 @@ func walkLevels(s *skiplist.Skiplist, showMarked bool) string {
 }
 
 func statsLine(s *skiplist.Skiplist) string {
-	dist, soft, allocs, frees, _ := s.VerifRawStats()
+	dist, soft, allocs, frees, used := s.VerifRawStats()
+	// memory in use must equal what a walk of level 0 measures (checked here, not modelled: a mismatch is
+	// appended to the line, which then never matches the model)
+	var walked int64
+	if n, _ := skiplist.VerifNext(s.HeadNode(), 0); n != nil {
+		for cnt := 0; n != nil && n != s.TailNode() && cnt < 10000000; cnt++ {
+			next, del := skiplist.VerifNext(n, 0)
+			if !del {
+				walked += int64(s.Size(n))
+			}
+			n = next
+		}
+	}
+	memSuffix := ""
+	if used != walked {
+		memSuffix = fmt.Sprintf(" mem=%d/walk=%d", used, walked)
+	}
 	last := -1
 	nodes := int64(0)
 	for i, c := range dist {
@@ -110,7 +126,7 @@ func statsLine(s *skiplist.Skiplist) string {
 	for i := 0; i <= last; i++ {
 		d = append(d, fmt.Sprint(dist[i]))
 	}
-	return fmt.Sprintf("nodes=%d soft=%d allocs=%d frees=%d dist=%s", nodes, soft, allocs, frees, list(d))
+	return fmt.Sprintf("nodes=%d soft=%d allocs=%d frees=%d dist=%s", nodes, soft, allocs, frees, list(d)) + memSuffix
 }
 
 func keyList(s string) ([]int, bool) {
